@@ -162,10 +162,10 @@ def check(case, ctx):
     axs = [input_axes(inp) for inp in inputs]
     desc = "align(%s, join=%r, sort=%r, axis=%r)" % (codec.short([{d: l for d, l in a.items()} for a in axs], 300), join, sort, axis)
     seq = tuple(objs) if case["as_tuple"] else list(objs)
-    res, exc = ctx.call(desc, lambda: da.align(seq, join=join, sort=sort, axis=axis), operands=tuple(objs))
+    res, exc = ctx.call(desc, lambda: da.align(seq, join=join, sort=sort, axis=axis), operands=tuple(objs), containers=(seq,))
     # "no input array is modified" is part of this property's statement
     for v in ctx.viol:
-        if v["property"] == "C15" and v["key"].startswith("operand-mutated") and not v.get("_c06"):
+        if v["property"] == "C15" and v["key"].startswith(("operand-mutated", "input-container-modified")) and not v.get("_c06"):
             v["_c06"] = True
             ctx.viol.append({"property": ID, "key": "input-modified" + (":sort" if sort else ""), "msg": v["msg"], "_c06": True})
     alldims = []
